@@ -154,7 +154,10 @@ reg("C11", "proof", ["contracts.symmetry:AssemblyPermutation", "contracts.symmet
     note="lemma over the assembly contracts (C09) and the block contracts (C01-C04, C07, C08), re-discharged here on the current tree",
     extra_assumptions=["rounding clause ('also for quartets pairing tight and diffuse shells' in floating point) is outside the deductive part"])
 
-reg("C12", "proof", ["contracts.covariance:Covariance"],
+reg("C12", "proof", ["contracts.covariance:Covariance",
+    # density-derived scalar / vector / tensor fields: covariant because they ARE the tensor expressions of C06 / C15 / C14 in the
+    # (covariant) orbital derivatives and Coulomb integrals - those defining formulas are re-discharged here on the real routines
+    "contracts.density:GradLapHess", "contracts.stress:StressInline", "contracts.esp:ESPInline"],
     ["construct_array_contraction of Overlap, KineticEnergyIntegral, MomentumIntegral, AngularMomentumIntegral, Moment, PointChargeIntegral, "
      "ElectronRepulsionIntegral, EvalDeriv on a system and its image (kernels inlined)"],
     note="two symbolic runs of the real block routines (system / image) compared through the representation matrices; translation vector symbolic; "
